@@ -141,7 +141,7 @@ fn exec(c: &Case) -> Vec<String> {
         ctx.execute_blocking();
         let _ = tx.send(out.get());
     });
-    match rx.recv_timeout(Duration::from_secs(20)) {
+    match rx.recv_timeout(Duration::from_secs(20 * nvh::load_factor() as u64)) {
         Ok(Some(v)) => vec![format!("[{}]", v.iter().map(|x| x.to_string()).collect::<Vec<_>>().join(","))],
         Ok(None) => vec!["none".into()],
         Err(_) => vec!["blocked".into()],
